@@ -73,6 +73,8 @@ ASSUMPTIONS = [
     'spelling denotes its canonical form as computed by the standard library ipaddress module (trusted base)',
     'text forms generated: those documented in README.org / parse_route_path / port_link / parse_connection_path '
     'docstrings; trailing symbolic CIP paths contain no "/" or ":" and are not integers or addresses (documented ambiguity)',
+    'configuration file: "[UCMM] Route Path" is documented (cpppo.cfg, ucmm.py) as a default used only when no personality is given '
+    'at run time (null = any, false/0 = simple); exercised through --config <file> next to -S / --simple / --route-path',
     'main() restricts --route-path to one segment, so multi-segment personalities are exercised in-process only; '
     '--route-path 0 / false are documented (README.org, --help) as the simple personality; "null" is not used on the '
     'command line (main.py comment and ucmm.py comment disagree about it)',
@@ -1158,8 +1160,18 @@ def _cli_child(case):
     stats = Stats()
     specs, argv, pers, steps = case['specs'], case['argv'], case['pers'], case['steps']
     classes = {'cli:argv:' + (' '.join(argv[:1]) if argv else '(none)'), 'cli:pers:' + pers['kind']}
+    cfgdir = None
+    run_argv = list(argv)
+    if case.get('config_text') is not None:
+        # a configuration file ([UCMM] Route Path = ...) next to the command line: the file only supplies a default
+        import tempfile
+        cfgdir = tempfile.mkdtemp(prefix='vp-c15-cfg-')
+        with open(os.path.join(cfgdir, 'vp.cfg'), 'w') as fh:
+            fh.write('[UCMM]\nRoute Path = %s\n' % case['config_text'])
+        run_argv = ['--config', os.path.join(cfgdir, 'vp.cfg')] + run_argv
+        classes.add('cli:config-file')
     try:
-        srv = sim.TcpServer(specs, extra_argv=argv, attribute_class=c['counting'])
+        srv = sim.TcpServer(specs, extra_argv=run_argv, attribute_class=c['counting'], no_config=cfgdir is None)
     except (RuntimeError, AssertionError) as exc:
         stats.case(case, classes=sorted(classes))
         m = re.search(r'did not start: (\w+)\(', str(exc))
@@ -1184,6 +1196,9 @@ def _cli_child(case):
                 _cli_steps(srv, dict(case, steps=[steps[i]]), stats, set())
     finally:
         srv.stop()
+        if cfgdir:
+            import shutil
+            shutil.rmtree(cfgdir, ignore_errors=True)
     return stats
 
 
@@ -1229,6 +1244,19 @@ def cli_config(argv_kind, path=None, form='slash'):
         return [argv_kind], {'kind': 'simple', 'path': None}
     if argv_kind == 'falsey':
         return ['--route-path', path], {'kind': 'simple', 'path': None}
+    if argv_kind.startswith('config'):
+        # form = [config file text, command line ...]: documented (cpppo.cfg, ucmm.py): the configured Route Path is used only
+        # if none is supplied at run time; null = any, false/0 = simple
+        cfg_text, cmd = form[0], list(form[1:])
+        if cmd:
+            argv, pers = cli_config(*cmd)
+            return argv, dict(pers, config_text=cfg_text)
+        if cfg_text == 'null':
+            return [], {'kind': 'none', 'path': None, 'config_text': cfg_text}
+        if cfg_text in ('false', '0'):
+            return [], {'kind': 'simple', 'path': None, 'config_text': cfg_text}
+        kind = 'single_num' if isinstance(path[0][1], int) else 'single_addr'
+        return [], {'kind': kind, 'path': path, 'config_text': cfg_text}
     kind = 'single_num' if isinstance(path[0][1], int) else 'single_addr'
     return ['--route-path', render_route(path, form)], {'kind': kind, 'path': path}
 
@@ -1251,13 +1279,18 @@ def cli_steps_st(draw, specs, pers, sweep):
 def cli_case_st(draw, skey=None):
     """skey: None (drawn single-segment configuration) or a fixed [argv_kind, path, form]."""
     specs = draw(specs_st(all_addressed=True))
+    config_text = None
     if skey:
         argv, pers = cli_config(*skey)
+        config_text = pers.pop('config_text', None)
     else:
         path = [[draw(port_st()), draw(link_st())]]
         form = draw(st.sampled_from(['slash', 'json_dicts', 'json_dict', 'json_strs']))
         argv, pers = cli_config('route', path, form)
-    return {'specs': specs, 'argv': argv, 'pers': pers, 'steps': draw(cli_steps_st(specs, pers, True))}
+    case = {'specs': specs, 'argv': argv, 'pers': pers, 'steps': draw(cli_steps_st(specs, pers, True))}
+    if config_text is not None:
+        case['config_text'] = config_text
+    return case
 
 
 CLI_FIXED = [
@@ -1273,6 +1306,14 @@ CLI_FIXED = [
     ['route', [[2, '192.168.1.2']], 'json_dict'],
     ['route', [[300, 15]], 'json_strs'],
     ['route', [[3, '2001:db8::1']], 'slash'],
+    # configuration file x command line: the file's Route Path is a default only
+    ['config', [[1, 0]], ['1/0']],                                   # file alone: the configured route path
+    ['config', [[1, 0]], ['1/0', '-S', None, 'slash']],              # file + -S: simple
+    ['config', [[1, 0]], ['1/0', '--simple', None, 'slash']],
+    ['config', [[1, 0]], ['1/0', 'falsey', 'false', 'slash']],       # file + --route-path false: simple
+    ['config', [[1, 0]], ['1/0', 'route', [[2, 5]], 'slash']],       # file + --route-path 2/5: the command line's
+    ['config', None, ['false']],                                     # file says simple
+    ['config', None, ['null']],                                      # file says any
 ]
 
 
@@ -1349,5 +1390,7 @@ def run(tier, seed):
                                        'first request of %d drawn cases (values, tags, ports, links drawn)'
                                        % (len(PERSONALITIES), len(ROUTE_KINDS), len(SERVICES), len(GRID), reps))
     stats.exhaustive['text-falsey'] = 'the JSON texts %s' % (', '.join(FALSEY_TEXTS),)
-    stats.exhaustive['cli-fixed'] = 'command lines: %s' % ('; '.join(' '.join(cli_config(*k)[0]) or '(none)' for k in CLI_FIXED),)
+    stats.exhaustive['cli-fixed'] = 'command lines: %s' % ('; '.join(
+        (('[config file Route Path = %s] ' % cli_config(*k)[1]['config_text']) if 'config_text' in cli_config(*k)[1] else '') +
+        (' '.join(cli_config(*k)[0]) or '(none)') for k in CLI_FIXED),)
     return stats
